@@ -11,7 +11,26 @@ WRAP_NOTE = ("Exhaustive only within the stated constants (2-4 processes, limit 
 WRAP_TECH = ("implementation-shaped TLA+ models (spec/Blocking.tla, spec/QueueBlocking.tla) model-checked by TLC against the contract invariants; every transition of "
              "their state graphs replayed on the real limiters through gates inside a synctest bubble; recorded executions validated by TLC against the contract spec/WrapperTrace.tla")
 
+LIM_NOTE = ("Sequential histories for the deterministic contracts; exhaustive graph part uses window size 10 (the code's minimum), ages <= 2 ticks, one or two window "
+            "closings, scripted estimate trajectories {1,3,0,2} / {2,2,1}; testing/synctest's virtual clock makes RTTs exact; TLC 1.8 + CommunityModules Json trusted.")
+
 CHECKS = {
+    "C01": dict(
+        technique="implementation-shaped TLA+ model of the lock structure (spec/DefaultLimiterConc.tla) model-checked by TLC with lock-removal weakenings; the weakened model's attack schedule realised on the real code in real time through the verif hooks simple.afterCheck / precise.afterCheck; recorded free-running concurrent histories checked for linearisability against the atomic gate by TLC (spec/GateTrace.tla); gate-serialised wrapper schedules validated by spec/WrapperTrace.tla",
+        text="TLC checks NeverOver / GrantHadRoom / RefusedAtLimit for all interleavings of 3 callers x 2 rounds with the limit moving over {1,2,3} (0 floored), for the simple and precise strategies through the limiter and the precise strategy used directly; removing the limiter lock or the precise mutex must (and does) violate NeverOver. The counterexample schedule - caller 1 parked between check and increment, caller 2 started - is forced on the real code: on this tree caller 2 never gets in. Free-running histories of 2-8 goroutines with sample-driven limit changes are accepted only if TLC finds linearisation points that make every grant/refusal the atomic gate's decision.",
+        ref="5 C01", note="Bounded model (3 callers, 2 rounds, limits 1..3); the real-time attack waits 30/200 ms for the second caller (can miss, cannot accuse); stress histories are a scheduler-dependent sample."),
+    "C02": dict(
+        technique=WRAP_TECH + "; deterministic contracts spec/Limiter.tla and spec/Partition.tla validating recorded histories of the default limiter and the partitioned strategies",
+        text="Conservation invariants at every layer: TLC checks Conservation / RefusedHoldsNothing on the wrapper models (hand-off racing with give-up, rejected hand-off, cancellation during the attempt); the contract WrapperTrace tracks every delegate token (held, or in transit to a waiter) through each recorded execution and rejects a return that holds the wrong number of tokens, a nil/non-nil listener mismatch, a double completion, and any step after which busy count or gauge differ from the tokens out; Limiter/Partition traces check gauge = busy = outstanding and bins = outstanding per bin after every call with all three outcomes.",
+        ref="5 C02", note=WRAP_NOTE),
+    "C05": dict(
+        technique="TLA+ contracts spec/Limiter.tla (+ spec/Partition.tla for shares) explored exhaustively by TLC, every transition replayed on real DefaultLimiters with a scripted limit algorithm; recorded random histories over all four strategy kinds validated by TLC (LimiterTrace, PartitionTrace)",
+        text="InvEnforce (strategy limit = max(1, estimate), every registered bin = Share(limit, fraction)) is checked by TLC in every state of the contract graph and after every call of the recorded histories, with estimate trajectories containing 0, negative and repeated values, for the simple, precise, lookup and predicate strategies; the Partition graph (SetLimit / add / remove) is replayed exhaustively for the share half.",
+        ref="5 C05", note=LIM_NOTE),
+    "C09": dict(
+        technique="deterministic TLA+ contract of the window fold and close rule (spec/Limiter.tla) explored exhaustively by TLC with the real minimum window size; every transition replayed on a real DefaultLimiter on a virtual clock with a recording limit algorithm; random histories validated by TLC (LimiterTrace)",
+        text="The exact sequence of OnSample(rtt, inflight, drop) calls the algorithm must receive is a function of the history of acquires, clock advances and completions; TLC enumerates the contract's state graph (12.5k-150k transitions) and the harness takes every transition on the real limiter comparing the samples delivered, and 150-1500 random histories (every drop position, ignores, sub-threshold and zero-duration successes) are validated in the other direction.",
+        ref="5 C09", note=LIM_NOTE),
     "C03": dict(
         technique="TLA+ contract (spec/Partition.tla) checked by TLC; every transition of the TLC state graph replayed on the real strategies; recorded random histories validated against the contract by TLC (PartitionTrace)",
         text="The admission rule, shares and bin accounting are a deterministic TLA+ contract. TLC enumerates its full state graph for small constants and the harness executes every transition on the real lookup and predicate strategies comparing result and projected state; long random histories with large limits and dynamic partitions are validated in the other direction by TLC.",
